@@ -73,6 +73,23 @@ add('C07', 'runtime monitoring: status/Location of each exchange and of the foll
     'DESIGN.md section 3, C07')
 
 
+add('C08', 'runtime monitoring: complete (environ, start_response) interaction recorded for scripted misbehaviour at every '
+           'stack position under five error-handler kinds; probe-set and structure re-taken after every failure in histories',
+    'Scripted deviations (8 non-Response/Response returns, 18 exception shapes x 8 message kinds incl. 1 MB, __str__/__repr__-raising and '
+    'lone-surrogate text, raise/return of all 34 HTTPException classes breaking or not) at 20 stack positions x 2 renderer settings x '
+    '5 handler kinds x 8 Accept headers, sampled 21 000 times per quick run; expected status from the statement; re-raised exceptions '
+    'are compared by identity; a failing render_error is compared byte-wise with the default rendering of the same error; histories '
+    'of 5-30 failing requests re-probe six fixed requests after each one.',
+    'DESIGN.md section 3, C08')
+add('C09', 'runtime monitoring: error responses parsed with json / expat / html.parser; canary-based escaping oracle; independent '
+           'status table and Accept acceptability judge',
+    'Every class of clastic.errors (raised and returned, default and overridden code/message/detail/error_type), 404s for hostile paths, '
+    '405s and uncaught exceptions with hostile message, local variable, header, query and path segment, under the default and the debug '
+    'handler and 32 Accept headers; 35 000 responses per quick run are parsed; canaries must never become elements or attributes and '
+    'must re-appear verbatim as text where the page displays the field.',
+    'DESIGN.md section 3, C09')
+
+
 def main():
     present = sorted(p for p in CHECKS if os.path.exists(os.path.join(HERE, 'vt', 'checks', p + '.py')))
     checks = []
